@@ -161,6 +161,18 @@ static bool complete_at(uint64_t v, int64_t fend) {
 
 static void check_order(uint32_t log_from) {
     scan_chunks();
+    /* at an operation boundary the head table of every track in the file is the one the writer holds in memory: what a writer stopped
+     * here leaves behind reaches every chunk it has written through the head tables (a stale 0 entry hides a whole level) */
+    for (unsigned t = 0; t < 4; ++t) {
+        struct jls_core_track_s * tr = &core.signal_info[1].tracks[t];
+        if (tr->head.offset) {
+            SYM_U32(lv);
+            ASSUME(lv < JLS_SUMMARY_LEVEL_COUNT);
+            int64_t v;
+            memcpy(&v, membk_file + tr->head.offset + 32 + 8 * lv, 8);
+            CHECK(v == tr->head_offsets[lv], "the head table in the file equals the writer's in-memory head offsets at every operation boundary");
+        }
+    }
     for (uint32_t i = 0; i < MEMBK_LOG; ++i) {
         if (i >= log_from && i < membk_n_writes) {
             int64_t pos = membk_log[i].pos;
